@@ -27,6 +27,12 @@ CLAIMS = {
     "C14": dict(cat="other", ref="DESIGN.md 5/C14",
         text="partial: expiry arithmetic of Message._expired (exact threshold 2L+3s, monotone, payload-derived 1F09 lifetimes incl. 0), pkt_lifespan == the lifetime table, the store rule of _MessageDB._handle_msg over the whole (code,verb,ctx) view, and the read rule of _msg_value_msg are SMT-discharged postconditions of the real functions; the read rule's 'expired => not reported' clause is a listed known finding",
         note="trusted: pyvc semantics (datetime/timedelta model, float division of integer microseconds compared exactly with 2.0), z3; not decided: MultiZone._handle_msg routing of array payloads to zones, _delete_msg over the entity graph"),
+    "C13": dict(cat="other", ref="DESIGN.md 5/C13",
+        text="partial: two named mechanisms. (1) Message._expired is total (no exception for any message, incl. payload-derived zero lifespans; discharged under C14's expiry harnesses, re-run here); (2) Gateway.get_state and _restore_cached_packets resume the engine on every exit -- return, an exception from any callee, cancellation at any await: postcondition proved by symbolic execution with every callee/await allowed to raise, plus a syntactic try/finally obligation",
+        note="trusted: pyvc semantics, z3; callees (_pause/_resume, schema, device state DBs, protocol/transport factories) are contracts that may raise at will; NOT decided: 'every public view returns without raising' for arbitrary packet histories (dynamic dispatch over ~60 entity classes, heap-shaped state)"),
+    "C18": dict(cat="other", ref="DESIGN.md 5/C18",
+        text="partial: the 'leaves nothing behind' clause. If the zone lock was obtained, Schedule._get_schedule and set_schedule release it on every exit (normal, error from any send or version query, cancellation by the caller's timeout): proved by symbolic execution of the real coroutine with every await allowed to raise (two fragment exchanges unrolled) and by a syntactic try/finally obligation covering any number of exchanges",
+        note="trusted: pyvc semantics, z3; tcs._obtain_lock, _schedule_version, async_send_cmd, Message() and _update_payload_set are contracts; NOT decided: loss/timeout patterns, that a returned schedule is never stitched from two versions, concurrent transfers"),
 }
 
 NA = {
